@@ -267,7 +267,7 @@ pub fn spec(k: usize, x: &dyn Display, w: usize, p: usize) -> (&'static str, Str
 }
 
 /// The documented text `( m00 ... m0j\n  ... )` with every element formatted on its own under spec `k`.
-fn display_model_spec<T: Display, const N: usize>(m: &[[T; N]; N], k: usize, w: usize, p: usize) -> String {
+pub fn display_model_spec<T: Display, const N: usize>(m: &[[T; N]; N], k: usize, w: usize, p: usize) -> String {
     let mut s = String::from("(");
     for i in 0..N {
         if i > 0 {
